@@ -116,6 +116,27 @@ def run_property(prop, tier, seed, prop_file, corr_mod, check_fn, profiles, n_qu
             scenarios.append(m5.Gen(rnd, prof).gen(rnd.randint(*prof.get("actions", (12, 45)))))
         harness_ok, gout, outs = m5.run_scenarios(work, scenarios)
         results = eval_traces(work, outs, corr_mod, check_fn, prop) if (harness_ok and ok) else []
+        # A scenario whose trace is rejected or fails the monitor (beyond the recorded finding) is run again alone before it is
+        # reported; the verdict is that of the re-run.  (Under CPU contention the Go runtime's monitor thread can force a goroutine
+        # switch inside a lock region - not at an armed yield - which splits the region's events in the recorded trace; that does
+        # not reproduce.  Defects of the implementation and every recorded seeded change do.)
+        not_reproduced = []
+        if results:
+            kl = {e["id"] for e in known_findings(prop)}
+            suspects = [i for i, r in enumerate(results)
+                        if (not r[0]) or any(not (f[3] and finding_id in kl) for f in r[2])][:10]
+            for i in suspects:
+                ok2, _, o2 = m5.run_scenarios(work, [scenarios[i]])
+                if ok2 and o2:
+                    r2 = eval_traces(work, o2, corr_mod, check_fn, "%s_re%d" % (prop, i))[0]
+                    if r2[0] and not any(not (f[3] and finding_id in kl) for f in r2[2]):
+                        not_reproduced.append({"scenario_index": i, "first_run_rejected_at": results[i][1],
+                                               "first_run_monitor_failures": [list(f) for f in results[i][2]]})
+                    outs[i], results[i] = o2[0], r2
+                    for lst in (LAST_TRUNC_BAD, LAST_TIME_REJECTS, LAST_CMD_REJECTS):
+                        keep = [t for t in lst if not (t[0] == prop and t[1] == i)]
+                        keep += [(prop, i) + tuple(t[2:]) for t in lst if t[0] == "%s_re%d" % (prop, i)]
+                        lst[:] = [t for t in keep if t[0] != "%s_re%d" % (prop, i)]
         known_listed = {e["id"] for e in known_findings(prop)}
         n_events = sum(len(o["events"]) for o in outs)
         statuses, cmds = {}, {}
@@ -142,7 +163,8 @@ def run_property(prop, tier, seed, prop_file, corr_mod, check_fn, profiles, n_qu
             "events": n_events, "event_kind_mix": kinds, "request_status_mix": statuses, "command_mix": cmds,
             "samples": [scenarios[0]["steps"][:12]],
             "traces_validated_against_impl": len(outs),
-            "correspondence": {"traces": len(outs), "accepted_by_model": len(results) - len(rejected), "rejected": len(rejected)},
+            "correspondence": {"traces": len(outs), "accepted_by_model": len(results) - len(rejected), "rejected": len(rejected),
+                               "failures_not_reproduced_on_rerun": not_reproduced},
             "monitor": {"hits": len(hits), "known_finding_hits": len(known), "other": len(unknown),
                         "codes": codes},
         })
